@@ -38,13 +38,18 @@ CHECKS.update({
             'a polling cycle begins with the read / listing / callback / next() the fakes log; from_kafka* and socket sources are not part of this check'),
 })
 
+CHECKS.update({
+    'C09': ('fault_enumeration', 'real FromKafkaBatched / get_message_batch / RefCounter over an in-memory fake of confluent_kafka and a FakeBroker that alone survives a crash: histories (arrivals per partition, partitions added, batch limit, reset policy, npartitions given/discovered, refresh, pre-committed offsets), schedules (consumer latencies, commit application delay), broker faults (transient committed()/get_watermark_offsets failures, in-flight commits lost or landed) and a crash after sampled (thorough: partly every) trace events of each history followed by a restart against the surviving broker; oracles: ranges contiguous / non-overlapping / start at the durable committed offset or the reset position / below the high watermark / within the batch limit / content equals the log slice, a commit is issued only for a batch that is no longer live anywhere below, caught up at the end', '4 (C09)',
+            'the client and broker are fakes following the confluent_kafka call contracts streamz uses; no log retention; at-least-once is decided through its two halves (commit only after processing, restart resumes at the durable offset) under the in-order proviso of the statement'),
+})
+
 NOT_APPLICABLE = {
     'C06': 'pure function of the batch sequence and the expression tree: no schedule, clock, I/O, peer or fault occurs in the statement or the anchored code, so simulation would only be input generation in disguise (DESIGN 5)',
     'C07': 'same as C06: window(value=T) reads timestamps from the data index, never a clock (DESIGN 5)',
     'C11': 'same as C06: the split into batches is an input, not a schedule (DESIGN 5)',
 }
 
-PENDING = {k: 'check under construction in this session (will be claimed once built)' for k in ['C09', 'C12', 'C15', 'C19', 'C20']}
+PENDING = {k: 'check under construction in this session (will be claimed once built)' for k in ['C12', 'C15', 'C19', 'C20']}
 
 
 def main():
